@@ -398,6 +398,10 @@ def run(ctx):
     by_id = {x["id"]: x for x in recs}
     for rid, p, clause in ctx.validate(recs):
         ctx.violation(clause, {"kind": "c06", "record": by_id[rid], "text": texts.get(rid, "")}, key=clause)
+    # block boundaries: the section laid out so that boundaries of every power-of-two block size (and of multiples of 1000)
+    # fall right behind, just after and inside its lines; > 2^20 characters; through from_file and from_filepath
+    from chartgen import judge_block_alignment
+    judge_block_alignment(ctx, "C06", ['track', 'sync', 'events', 'song'])
     ctx.assumptions += [
         "the routing table is the .chart format's (Easy/Medium/Hard/Expert x Single, DoubleGuitar, DoubleBass, DoubleRhythm, Keyboard, Drums, GHLGuitar, GHLBass, GHLCoop, GHLRhythm)",
         "BOM independence is required only for Chart.from_filepath",
